@@ -245,7 +245,7 @@ class SigmaFilter(SigmaRuleBase):
         # with it: they would be overwritten or captured by the patterns of this filter.
         while True:
             prefix = "_filt_" + "".join(random.choices(string.ascii_lowercase, k=10))
-            if not any(name.startswith(prefix + "_") for name in rule.detection.detections):
+            if not any(str(name).startswith(prefix + "_") for name in rule.detection.detections):
                 break
 
         # Rename every filter detection identifier with the shared prefix.
